@@ -518,6 +518,11 @@ fn deep_descriptor(depth: usize, entry: Entry) -> Result<(), Violation> {
             if !same {
                 return Err(v("deep-type-accepted", class, format!("{depth}-layer descriptor accepted as {ty:?}")));
             }
+            // accepted, so it is a value like any other: writing it out (what every error text naming a type does)
+            // must not be where the over-deep input finally panics
+            if let Err(p) = catch_unwind(AssertUnwindSafe(|| ty.to_string())) {
+                return Err(v("deep-type-panic", format!("{class}/display"), format!("the accepted {depth}-layer type panics when displayed: {}", kernel::panic_message(&*p))));
+            }
         }
         Ok(Err(_)) => {}
     }
